@@ -129,6 +129,7 @@ func (h Header) CheckIntegrity() error {
 	le.PutUint32(bh[4:8], h.DataSize)
 	copy(bh[8:12], h.DataType[:])
 	le.PutUint16(bh[12:14], h.CRC)
+	crc.Write(bh)
 
 	if crc.Sum16() != 0x0000 {
 		return errHdrCRC
